@@ -12,10 +12,12 @@ pub fn str_of(len: usize, r: &mut Rng) -> String {
     let mut s = String::with_capacity(len);
     while s.len() < len {
         let left = len - s.len();
-        if left >= 3 && r.chance(1, 40) {
-            s.push('日');
+        if left >= 4 && r.chance(1, 80) {
+            s.push('😀');
+        } else if left >= 3 && r.chance(1, 40) {
+            s.push(*r.pick(&['日', '一']));
         } else if left >= 2 && r.chance(1, 40) {
-            s.push('ü');
+            s.push(*r.pick(&['ü', 'Ā']));
         } else {
             s.push((b'a' + r.below(26) as u8) as char);
         }
@@ -398,7 +400,27 @@ pub fn c14_script(r: &mut Rng, _index: u64, _tier: Tier) -> (CaseCfg, Vec<Step>)
     let pid = *r.pick(&[1u16, 7, 255, 256, 65535]);
     let publish = |qos: u8, dup: bool| Step::Broker(BrokerAct::Send(SPacket::Publish { dup, qos, retain: false, topic: "m".into(), pid: Some(pid), props: vec![], payload: vec![9, 9] }));
     let mut s = vec![];
-    match r.below(8) {
+    match r.below(9) {
+        // limits on both sides of 64 KiB with requests just below, at and above them (a transmit
+        // arena large enough to hold such requests): the comparison must not be made in 16 bits
+        8 => {
+            cfg.tx = 300_000;
+            let limit = *r.pick(&[65_534u32, 65_535, 65_536, 65_537, 70_000, 100_000, 131_072]);
+            s.push(connect_with(SpMode::Force(false), AckMode::Immediate, vec![Prop::MaximumPacketSize(limit)]));
+            for k in 0..4u32 {
+                // PUBLISH "b": 1 + remaining-length bytes (3) + 2 + 1 (topic) + 2 (identifier, QoS > 0) + 1 (property length) + payload
+                let qos = r.below(3) as u8;
+                let overhead = 1 + 3 + 3 + if qos > 0 { 2 } else { 0 } + 1;
+                let total = (limit as i64 + *r.pick(&[-3i64, -1, 0, 1, 2, 70, 40_000, 140_000])).max(overhead as i64 + 1) as usize;
+                s.push(pubq(qos, "b", 0xB16 + k, total - overhead));
+                s.push(poll0());
+            }
+            if r.chance(1, 2) {
+                // ... and a SUBSCRIBE whose single filter makes it that long (filters are at most 65535 bytes)
+                let flen = (limit as usize).saturating_sub(*r.pick(&[9usize, 10, 11, 12])).min(65_535);
+                s.push(Step::Subscribe(SubSpec { filters: vec![FilterSpec { filter: "f".repeat(flen), max_qos: 1, no_local: false, rap: false, rh: 0 }, FilterSpec { filter: "g".repeat(*r.pick(&[1usize, 30_000])), max_qos: 0, no_local: false, rap: false, rh: 0 }], props: vec![], cancel_at: None }));
+            }
+        }
         // a receive buffer shorter than a fixed header: whatever arrives ends the connection with
         // an error (the handshake cannot succeed), it never overruns the buffer
         7 => {
